@@ -83,6 +83,12 @@ CHECKS = {
    text="Programs are built one API call at a time; an exception during build or plan must be ValueError / TypeError / NotImplementedError / IndexError, and once build and plan succeeded a fault-free compute must not fail (an admission refusal before the executor is entered is C04's business and is recognised as such).",
    note="Trusted: TLC; the generator only emits expressions NumPy evaluates.",
    design_ref="DESIGN.md §5 C17"),
+ "C18": dict(
+   engine="MemSize",
+   technique="TLA+ module MemSize.tla gives the exact meaning of a size literal on digit sequences (grammar parser + decimal shift); TLC evaluates thousands of generated literals and convert_to_bytes must agree digit for digit or reject where the reference rejects; mixed-Spec rejection swept over every multi-array entry point x every Spec field",
+   text="(a) ~30 multi-array entry points (functions, operators, compute/plan/visualize/store, index-by-array) x 7 Spec fields differing one at a time: ValueError required, except per-argument functions (broadcast_arrays, meshgrid, eager index evaluation) that may accept if no returned plan mixes both inputs; accepted plans carry the Spec's allowed_mem/reserved_mem on the plan and every operation. (b) literals with up to 17+7 digits, exponents, underscores, units, spaces and ~15% malformed variants: exact byte count or rejection, only ValueError counts as rejection.",
+   note="Trusted: TLC as evaluator (digit-sequence arithmetic, no 32-bit limit). Non-ASCII digits are outside the grammar and not generated.",
+   design_ref="DESIGN.md §5 C18, §4.10"),
  "C19": dict(
    engine="ApiTrace",
    technique="TLA+ monitor ApiTrace.tla (clause ConfigInvariant) over the same scenario built, planned and computed under the global default configuration and explicit Specs differing in work_dir, intermediate store, compressor, reserved_mem, executor, allowed_mem",
